@@ -415,8 +415,11 @@ def gen_history(rng: random.Random, tier: str) -> dict:
     return {"ops": out, "clock": {"t0": float(rng.randrange(400_000_000, 4_000_000_000)), "steps": [rng.choice([0.0, 1.0, -3600.0, 0.5]) for _ in range(3)], "mem": rng.choice([0, 255, rng.randrange(1, 2**31)])}}
 
 
+OPTIMIZE_SLOTS = {"quick": [2], "thorough": [2]}  # one interpreter slot in three runs under `python -O` (asserts stripped)
+
+
 def gen_specs(rng: random.Random, tier: str, n: int) -> list[dict]:
-    return [dict(gen_history(rng, tier), seed=rng.getrandbits(48)) for _ in range(n)]
+    return [dict(gen_history(rng, tier), seed=rng.getrandbits(48), slot=i % 3) for i in range(n)]
 
 
 def run(spec: dict, ctx) -> dict:
